@@ -1235,6 +1235,138 @@ def _not_dm(e):
     return _not(e)
 
 
+# ----------------------------------------------------------------------------------------------------------------------
+# N25: a named tuple the rules were never confirmed against is the plain tuple it is at run time
+_NEW_TUPLES = {}          # type name -> [field names]
+_FIELD_INDEX = {}         # field name -> (type name, index) for fields that cannot be mistaken for any other attribute
+
+
+def scan_new_tuples(sources):
+    """sources: {relpath: source text} of the whole tree.  Finds `T = namedtuple('T', 'a b')` / `class T(NamedTuple): a: X; b: Y`
+    definitions whose name the reference table does not know; a field is convertible when no other attribute, method or
+    class-level name of the tree is spelt the same."""
+    _NEW_TUPLES.clear()
+    _FIELD_INDEX.clear()
+    known = set()
+    for ent in _reference().values():
+        for nm in ent.get('constants', []) + ent.get('functions', []):
+            known.add(nm.split('.')[0])
+    other_attrs = set()
+    found = {}
+    hazard = False
+    for rel, src in sources.items():
+        try:
+            tree = ast.parse(src)
+        except SyntaxError:
+            continue
+        for n in ast.walk(tree):
+            if isinstance(n, ast.Attribute):
+                if isinstance(n.ctx, (ast.Store, ast.Del)):
+                    other_attrs.add(n.attr)
+                if n.attr in ('_replace', '_asdict', '_fields', '_make', '_field_defaults'):
+                    hazard = True
+            elif isinstance(n, (ast.FunctionDef, ast.AsyncFunctionDef)):
+                other_attrs.add(n.name)
+        for n in ast.walk(tree):
+            if isinstance(n, ast.Assign) and len(n.targets) == 1 and isinstance(n.targets[0], ast.Name) and isinstance(n.value, ast.Call) \
+                    and ((isinstance(n.value.func, ast.Name) and n.value.func.id == 'namedtuple')
+                         or (isinstance(n.value.func, ast.Attribute) and n.value.func.attr == 'namedtuple')) \
+                    and len(n.value.args) == 2 and not n.value.keywords:
+                spec = n.value.args[1]
+                fields = None
+                if isinstance(spec, ast.Constant) and isinstance(spec.value, str):
+                    fields = spec.value.replace(',', ' ').split()
+                elif isinstance(spec, (ast.List, ast.Tuple)) and all(isinstance(e, ast.Constant) and isinstance(e.value, str) for e in spec.elts):
+                    fields = [e.value for e in spec.elts]
+                if fields and n.targets[0].id not in known:
+                    found.setdefault(n.targets[0].id, []).append(fields)
+            elif isinstance(n, ast.ClassDef) and len(n.bases) == 1 and not n.keywords and not n.decorator_list \
+                    and ((isinstance(n.bases[0], ast.Name) and n.bases[0].id == 'NamedTuple')
+                         or (isinstance(n.bases[0], ast.Attribute) and n.bases[0].attr == 'NamedTuple')):
+                body = [b for b in n.body if not (isinstance(b, ast.Expr) and isinstance(b.value, ast.Constant)) and not isinstance(b, ast.Pass)]
+                if body and all(isinstance(b, ast.AnnAssign) and isinstance(b.target, ast.Name) and b.value is None for b in body) and n.name not in known:
+                    found.setdefault(n.name, []).append([b.target.id for b in body])
+            elif isinstance(n, ast.ClassDef):
+                for b in n.body:
+                    for t in ([b.target] if isinstance(b, ast.AnnAssign) else b.targets if isinstance(b, ast.Assign) else []):
+                        if isinstance(t, ast.Name):
+                            other_attrs.add(t.id)
+    if hazard:
+        return
+    for name, defs in found.items():
+        if len(defs) == 1 and len(set(defs[0])) == len(defs[0]):
+            _NEW_TUPLES[name] = defs[0]
+    counts = {}
+    for name, fields in _NEW_TUPLES.items():
+        for f_ in fields:
+            counts[f_] = counts.get(f_, 0) + 1
+    for name, fields in _NEW_TUPLES.items():
+        for i, f_ in enumerate(fields):
+            if counts[f_] == 1 and f_ not in other_attrs and not f_.startswith('_'):
+                _FIELD_INDEX[f_] = (name, i)
+
+
+def _untuple(tree):
+    if not _NEW_TUPLES:
+        return
+
+    class T(ast.NodeTransformer):
+        def visit_Call(self, n):
+            self.generic_visit(n)
+            nm = n.func.id if isinstance(n.func, ast.Name) else n.func.attr if isinstance(n.func, ast.Attribute) else None
+            fields = _NEW_TUPLES.get(nm)
+            if fields is None or any(isinstance(a, ast.Starred) for a in n.args) or any(k.arg is None for k in n.keywords):
+                return n
+            vals = dict(zip(fields, n.args))
+            if len(n.args) > len(fields) or any(k.arg in vals or k.arg not in fields for k in n.keywords):
+                return n
+            # keywords are evaluated in the order written; as tuple elements they must already be in field order
+            kw = [k.arg for k in n.keywords]
+            if kw != [f_ for f_ in fields[len(n.args):]][:len(kw)] or len(n.args) + len(kw) != len(fields):
+                return n
+            for k in n.keywords:
+                vals[k.arg] = k.value
+            return ast.copy_location(ast.Tuple(elts=[vals[f_] for f_ in fields], ctx=ast.Load()), n)
+
+        def visit_Attribute(self, n):
+            self.generic_visit(n)
+            hit = _FIELD_INDEX.get(n.attr)
+            if hit is None or not isinstance(n.ctx, ast.Load):
+                return n
+            new = ast.copy_location(ast.Subscript(value=n.value, slice=ast.copy_location(ast.Constant(value=hit[1]), n), ctx=ast.Load()), n)
+            new._verif_nt = hit[0]
+            return new
+    T().visit(tree)
+    # a local that only ever holds such a tuple and is only read field by field is the unpacking it replaces
+    for fn in [n for n in ast.walk(tree) if isinstance(n, (ast.FunctionDef, ast.AsyncFunctionDef))]:
+        loads, stores, declared = _name_counts(fn)
+        bound = _bound_in(fn)
+        for parent in [fn] + list(_own_walk(fn)):
+            for fld in ('body', 'orelse', 'finalbody'):
+                body = getattr(parent, fld, None)
+                if not (isinstance(body, list) and body and isinstance(body[0], ast.stmt)):
+                    continue
+                for st in body:
+                    if not (isinstance(st, ast.Assign) and len(st.targets) == 1 and isinstance(st.targets[0], ast.Name)):
+                        continue
+                    x = st.targets[0].id
+                    if x in declared or stores.get(x, 0) != 1 or not loads.get(x, 0):
+                        continue
+                    subs = [n for n in _own_walk(fn) if isinstance(n, ast.Subscript) and isinstance(n.value, ast.Name) and n.value.id == x
+                            and getattr(n, '_verif_nt', None)]
+                    if len(subs) != loads[x] or len({n._verif_nt for n in subs}) != 1:
+                        continue
+                    fields = _NEW_TUPLES[subs[0]._verif_nt]
+                    names = [f_ if f_ not in bound else f'{f_}__{x}' for f_ in fields]
+                    if any(nm in bound for nm in names):
+                        continue
+                    for n in subs:
+                        _ReplaceNode(n, ast.copy_location(ast.Name(id=names[n.slice.value], ctx=ast.Load()), n)).visit(fn)
+                    st.targets[0] = ast.copy_location(ast.Tuple(elts=[ast.copy_location(ast.Name(id=nm, ctx=ast.Store()), st) for nm in names],
+                                                                ctx=ast.Store()), st.targets[0])
+                    bound |= set(names)
+
+
 def _iteration_count(fn):
     """N24: a list that gains exactly one element per iteration counts the iterations, as the counter next to it does
 
@@ -1386,6 +1518,8 @@ def _head_break_loops(fn):
 
 def normalize(tree, relpath=None):
     _unannotate(tree)
+    if relpath is not None and not os.environ.get('VERIF_NO_REFNORM'):
+        _untuple(tree)
     _list_spellings(tree)
     _split_tuple_assign(tree)
     if relpath is not None and not os.environ.get('VERIF_NO_REFNORM'):
